@@ -1376,6 +1376,7 @@ var (
 	ipfsPool    = []string{"ipfs://QmA/schema.json", "ipfs:///QmB", "ipfs://QmC", "ipfs://"}
 	otherPool   = []string{"ftp://a.test/d1", "file:///etc/hosts", "bogus", "", "HTTP://a.test/d1", "httpx://a.test/d1", "ipfs:/QmA", "//a.test/d1", " http://a.test/d1"}
 	invalidPool = []string{"http://a.test/%zz", "http://a.test/\x7f"}
+	fragEmbPool = []string{"https://schema.example/vocab#", "https://schema.example/kyc.jsonld#v2", "http://a.test/d1#v2", "https://schema.example/vocab#Person"}
 	gwPool      = []string{"http://gw.test", "https://gw.test/", "http://gw.test//", "http://gw.test/sub"}
 	codePool    = []int{404, 500, 201, 204, 304, 403, 410}
 	lifePool    = []int64{1000, 2000, 3000, 5000}
@@ -1456,6 +1457,24 @@ func (g *gen) genHistory() Input {
 	if len(urls) > 4 {
 		urls = urls[:4]
 	}
+	// URLs with a fragment.  A pair that differs only in the fragment (each has its own cache entry
+	// and its own scripted body), and - memory engine only - documents EMBEDDED under a URL with a
+	// fragment ("#" alone included: such a URL is only ever used embedded, because net/http drops an
+	// empty fragment from the request URL, which the model does not describe).
+	var fragEmb []string
+	if r.Intn(100) < 18 {
+		add("http://a.test/d1#v1")
+		add("http://a.test/d1#v2")
+	}
+	if cfg.Mode == 2 && r.Intn(100) < 25 {
+		fragEmb = append(fragEmb, fragEmbPool[r.Intn(len(fragEmbPool))])
+		if r.Intn(2) == 0 {
+			fragEmb = append(fragEmb, fragEmbPool[r.Intn(len(fragEmbPool))])
+		}
+		for _, u := range fragEmb {
+			add(u)
+		}
+	}
 	// keys the origin can be scripted at
 	var keys []string
 	for _, u := range urls {
@@ -1485,6 +1504,11 @@ func (g *gen) genHistory() Input {
 		}
 		if r.Intn(8) == 0 && len(cfg.Emb) > 0 { // the same URL embedded twice: the last one wins
 			cfg.Emb = append(cfg.Emb, Emb{U: cfg.Emb[0].U, V: 950})
+		}
+		for _, u := range fragEmb {
+			if _, ok := cfg.embedded(u); !ok {
+				cfg.Emb = append(cfg.Emb, Emb{U: u, V: 960 + len(cfg.Emb)})
+			}
 		}
 	}
 	length := 1 + r.Intn(40)
@@ -1544,7 +1568,8 @@ func (g *gen) genEngine() Input {
 	if r.Intn(5) == 0 {
 		cfg.Mode = 0
 	}
-	keys := []string{"http://a.test/d1", "https://b.test/ctx/v1.json", "ipfs://QmA/schema.json", "k"}
+	keys := []string{"http://a.test/d1", "https://b.test/ctx/v1.json", "ipfs://QmA/schema.json", "k",
+		"https://schema.example/vocab#", "http://a.test/d1#v2"}
 	if cfg.Mode == 2 {
 		for i, k := range keys {
 			if r.Intn(2) == 0 {
@@ -1607,6 +1632,20 @@ func scripted() []Input {
 	// regression: minimal input of the defect c19-nocache-maxage-reused (fixed in /repo by da1a3b4)
 	out = append(out, Input{Kind: "history", Cfg: Cfg{Mode: 2},
 		Ops: []Op{serve(a, 1, pol(pNoCacheMaxAge, 3000)), load(a), serve(a, 2, pol(pNoCacheMaxAge, 3000)), tick(1000), load(a)}})
+	// fragments: documents embedded under URLs with a fragment are served verbatim without a request
+	// whatever the origin does; URLs differing only in the fragment have separate entries and bodies
+	{
+		e1, e2 := "https://schema.example/vocab#", "https://schema.example/kyc.jsonld#v2"
+		f1, f2 := "http://a.test/d1#v1", "http://a.test/d1#v2"
+		out = append(out, Input{Kind: "history", Cfg: Cfg{Mode: 2, Emb: []Emb{{U: e1, V: 901}, {U: e2, V: 902}}},
+			Ops: []Op{load(e1), load(e2), serve(e2, 1, pol(pMaxAge, 3000)), serve("https://schema.example/kyc.jsonld", 2, pol(pMaxAge, 3000)),
+				serve("https://schema.example/vocab", 3, pol(pMaxAge, 3000)), load(e1), load(e2), tick(4000), load(e1), load(e2),
+				serve(f1, 4, pol(pMaxAge, 3000)), serve(f2, 5, pol(pMaxAge, 3000)), load(f1), load(f2), load(f1), load(f2),
+				serve(f1, 6, pol(pNoStore, 0)), tick(1000), load(f1), load(f2), tick(3000), load(f1), load(f2)}})
+		out = append(out, Input{Kind: "history", Cfg: Cfg{Mode: 0},
+			Ops: []Op{serve(f1, 1, pol(pMaxAge, 3000)), serve(f2, 2, pol(pMaxAge, 3000)), serve(a, 3, pol(pMaxAge, 3000)),
+				load(f1), load(f2), load(a), load(f1), load(f2), load(a)}})
+	}
 	// the same with the directive in another letter case, and with no-cache / no-store on a second
 	// Cache-Control header line
 	for _, id := range []int64{0, 1, 12, 11} {
